@@ -174,7 +174,8 @@ def jobs(tier):
                         continue
                     for reverse in (False, True):
                         for cache in (True, False):
-                            if (not cache and dom in ('M', 'X')) or (dom == 'X' and bs not in (None, 1, 2)):
+                            if (not cache and dom in ('M', 'X')) or (dom == 'X' and bs not in (None, 1, 2)) or \
+                                    (tier == 'thorough' and not cache and bs not in (None, 1)):
                                 continue
                             budget = 90
                             if tier == 'thorough':
